@@ -5,6 +5,7 @@ import (
 	"go/ast"
 	"go/token"
 	"go/types"
+	"os"
 	"strings"
 
 	"golang.org/x/tools/go/cfg"
@@ -57,6 +58,7 @@ type mwFacts struct {
 	params    map[types.Object]bool
 	// the request function is a method of a small struct built by ScopeMiddleware
 	// (h := &scopeHandler{provider: provider, cfg: cfg, next: next}; return h.serve):
+	outer     map[types.Object]bool       // parameters of a delegated request function that stand for captured values
 	recv      types.Object                // its receiver (shared by all requests)
 	fieldInit map[*types.Var]types.Object // field -> the object of ScopeMiddleware it was initialised from
 }
@@ -269,6 +271,58 @@ func checkScopeMiddleware(w *World, r *Report, m string, p *packages.Package) {
 		}
 		return true
 	})
+	// the literal only hands its parameters and what it captured to a named function of the
+	// package (return http.HandlerFunc(func(w, r) { serveInScope(provider, cfg, next, w, r) })):
+	// that function is the request function; its parameters stand for what was passed
+	if len(f.lit.Body.List) == 1 {
+		var call *ast.CallExpr
+		switch st := f.lit.Body.List[0].(type) {
+		case *ast.ExprStmt:
+			call, _ = unparen(st.X).(*ast.CallExpr)
+		case *ast.ReturnStmt:
+			if len(st.Results) == 1 {
+				call, _ = unparen(st.Results[0]).(*ast.CallExpr)
+			}
+		}
+		if call != nil {
+			if t := pkgHelper(call); t != nil && t.Decl.Recv == nil && len(csIn(t)) > 0 {
+				allIdents := true
+				for _, a := range call.Args {
+					if objOf(info, a) == nil {
+						allIdents = false
+					}
+				}
+				if allIdents {
+					newParams := map[types.Object]bool{}
+					f.outer = map[types.Object]bool{}
+					k := 0
+					for _, fl := range t.Decl.Type.Params.List {
+						for _, nm := range fl.Names {
+							po := info.Defs[nm]
+							if k < len(call.Args) {
+								ao := objOf(info, call.Args[k])
+								switch {
+								case f.params[ao]:
+									newParams[po] = true
+								case ao == f.provider:
+									f.provider = po
+								case ao == f.cfg:
+									f.cfg = po
+									f.outer[po] = true
+								default:
+									f.outer[po] = true // a captured value (the wrapped handler)
+								}
+							}
+							k++
+						}
+					}
+					f.params = newParams
+					f.lit = &ast.FuncLit{Type: t.Decl.Type, Body: t.Decl.Body}
+					r.Analysed(t)
+				}
+			}
+		}
+	}
 	body := f.lit.Body
 	// scope and error variables of the CreateScope call (made here or in a private helper: openScope)
 	var csHelper *FuncInfo   // the helper that holds the CreateScope call, if any
@@ -515,7 +569,7 @@ func checkScopeMiddleware(w *World, r *Report, m string, p *packages.Package) {
 		case *ast.Ident:
 			// next(c): a captured function-typed parameter of an enclosing literal
 			if o := info.Uses[fun]; o != nil {
-				if _, isSig := o.Type().Underlying().(*types.Signature); isSig && !(f.lit.Pos() <= o.Pos() && o.Pos() < f.lit.End()) {
+				if _, isSig := o.Type().Underlying().(*types.Signature); isSig && (f.outer[o] || !(f.lit.Pos() <= o.Pos() && o.Pos() < f.lit.End())) {
 					if _, isVar := o.(*types.Var); isVar && o != f.cfg {
 						return true
 					}
@@ -1385,7 +1439,10 @@ func checkHandle(w *World, r *Report, m string, p *packages.Package) {
 		{"scope-failed", "SEH", "REH", "scope-error"}, {"res-failed", "REH", "SEH", "resolution-error"}} {
 		bad := ""
 		n := 0
-		for _, ex := range h3fl.Exits() {
+		for _, ex := range h3fl.ExitsPerPath() {
+			if os.Getenv("GODICHECK_DEBUG") != "" {
+				fmt.Fprintf(os.Stderr, "H3 %s exit %s block=%d ret=%v: %v\n", pre, w.Pos(ex.Pos), ex.Block.Index, ex.Ret != nil, h3must.AtExit(ex).Keys())
+			}
 			if !h3must.AtExit(ex).Has(k.fact) {
 				continue
 			}
